@@ -143,7 +143,7 @@ fn xls_ptgfunc_iftab_total() {
     let r = parse_formula(&rgce, &[], &[], &[], &xenc());
     assert!(r.is_err());
 }
-/// C06: PtgFuncVar (0x22) with argc == 0 and an iftab outside the table must not panic (fails: FTAB[iftab] is indexed unchecked)
+/// C06: PtgFuncVar (0x22) with argc == 0 and an iftab outside the table must not panic (FTAB[iftab] was indexed unchecked; now `get(..).ok_or(IfTab)`)
 #[kani::proof]
 #[kani::unwind(12)]
 fn xls_ptgfuncvar_iftab_total() {
